@@ -186,6 +186,28 @@ def run(prop, tier):
                 if x != y:
                     adhoc.append(sc.odict([("S1", [x, y]), ("S2", [x])]))
                     adhoc.append(sc.odict([("S1", [x, y]), ("S2", [y])]))
+        # three stages: properly nested ones, and ones whose third stage lies inside the first but not inside the second (must be refused -
+        # if they are accepted their values are judged like any other cascade's: never increasing)
+        wcomps = [n for n in P.framework.comps.index if P.framework.comps.at[n, "is source"] != "y" and P.framework.comps.at[n, "is sink"] != "y" and P.framework.comps.at[n, "is junction"] != "y"
+                  and (("population type" not in P.framework.comps.columns) or P.framework.comps.at[n, "population type"] == P.framework.comps.at[P.framework.comps.index[0], "population type"])][:3]
+        valid3 = []
+        if len(wcomps) == 3:
+            x, y, z = wcomps
+            for cd_ in (sc.odict([("S1", [x, y, z]), ("S2", [x, y]), ("S3", [x])]), sc.odict([("S1", [x, y, z]), ("S2", [x]), ("S3", [y])]), sc.odict([("S1", [x, y, z]), ("S2", [y]), ("S3", [x])]),
+                        sc.odict([("S1", [x, y, z]), ("S2", [z]), ("S3", [x, y])])):
+                try:
+                    casc_mod.sanitize_cascade(P.framework, cd_)
+                    valid3.append(cd_)
+                except Exception:
+                    pass
+            for cd_ in valid3:
+                vals, t = get_cascade_vals(res, cd_, pops="all")
+                stages = list(vals.keys())
+                for ti in range(0, len(t), max(1, len(t) // 12)):
+                    records.append(dict(id=rid, kind="order", vals=FX.fixseq([float(vals[s_][ti]) for s_ in stages])))
+                    index[rid] = dict(model=mname, cascade=dict(cd_), pops="all", ti=ti, stages=stages, vals=[float(vals[s_][ti]) for s_ in stages])
+                    rid += 1
+        cov["adhoc_three_stage_cascades_accepted"] = cov.get("adhoc_three_stage_cascades_accepted", 0) + len(valid3)
         valid_adhoc = []
         for cd_ in adhoc:
             try:
@@ -321,6 +343,29 @@ def run(prop, tier):
                 index[rid] = dict(model=mname, history=what, items=sel, before={k: v[1:3] for k, v in f0.items()}, after={k: v[1:3] for k, v in f1.items()})
                 rid += 1
             cov.setdefault("history_items", []).extend(sel)
+            # several results in one request: what is reported for a result does not depend on the other results listed with it or on their
+            # order (here a second run of the same model at half the step size; flows are annualised with each result's own step)
+            dt_old = float(P.settings.sim_dt)
+            P.settings.update_time_vector(dt=dt_old / 2)
+            try:
+                res2 = P.run_sim(P.parsets[0], P.progsets[0], at.ProgramInstructions(start_year=float(P.settings.sim_start + 2), alloc=P.progsets[0]), store_results=False)
+            finally:
+                P.settings.update_time_vector(dt=dt_old)
+            res2.name = "r2"
+            sel2 = sel + [m["plain_n"][0]]
+
+            def per_result(rs):
+                d_ = at.PlotData(rs, outputs=sel2, pops=m["pops"][:1])
+                return {(s_.result, s_.output): [float(x) for x in s_.vals[:40]] for s_ in d_.series}
+
+            alone = dict(per_result([res]))
+            alone.update(per_result([res2]))
+            for order in ([res, res2], [res2, res]):
+                joint = per_result(order)
+                for key in sorted(alone):
+                    records.append(dict(id=rid, kind="history", before=DG.dig(alone[key]), after=DG.dig(joint.get(key))))
+                    index[rid] = dict(model=mname, history="requested together with another result (order %s)" % [r_.name for r_ in order], items=list(key), before=alone[key][1:3], after=(joint.get(key) or [])[1:3])
+                    rid += 1
     bad, states = C.validate_batch(["Big", "AggregateTrace"], "AggregateTrace", records, ndjson=True, timeout=3000)
     cov["states"] += states
     cov["transitions"] += states
